@@ -14,6 +14,8 @@ CONSTANTS
   DHosts <- DHostsAll
   Fams <- FamsAll
   PathSet <- PathsAll
+  PathExts <- PathExtsAll
+  RespExts <- RespExtsAll
   Pls <- PlsAll
   ReqAuths <- ReqAuthsAll
   RespMuts <- RespMutsAll
